@@ -189,6 +189,36 @@ def feature_spec(draw, name, kind, blocks, dev_mode, dev_blocks, quant_pools=Non
             rows.append(apportion(ws + [wm], size))
         return rows
 
+    # "U-shaped" tables: exact ties by construction between two NON-adjacent modalities and between the missing
+    # values and one modality (counts are set directly; a filler modality absorbs the rest of each block)
+    u_shape = kind != "continuous" and n_mod >= 3 and draw(st.integers(0, 9)) < (3 if twin_boost else 1)
+    if u_shape:
+        i = draw(st.integers(0, n_mod - 3))
+        j = draw(st.integers(i + 2, n_mod - 1))
+        filler = draw(st.sampled_from([m for m in range(n_mod) if m not in (i, j)]))
+        k_nan = draw(st.integers(0, n_mod - 1))
+        with_nan = allow_missing and draw(st.integers(0, 2)) > 0
+        spec["u_shape"] = [i, j, k_nan if with_nan else None]
+
+        def table_u(blocks_):
+            rows = []
+            for size in blocks_:
+                cap = max(1, size // (n_mod + 2))
+                counts = [draw(st.integers(cap // 2, cap)) for _ in range(n_mod)]
+                counts[j] = counts[i]
+                counts[filler] = 0
+                missing = (counts[k_nan] if k_nan != filler else draw(st.integers(cap // 2, cap))) if with_nan else 0
+                rest = size - sum(counts) - missing
+                if rest < 0:
+                    counts = [0] * n_mod
+                    missing = 0
+                    rest = size
+                counts[filler] = rest
+                rows.append(counts + [missing])
+            return rows
+
+        table = table_u  # noqa: F811 - replaces the weight-based table for this feature
+
     train = table(blocks)
     spec["train"] = train
     if dev_mode == "none":
